@@ -501,6 +501,12 @@ pub fn supervise(prop: &str, tier: Tier) -> i32 {
             let _ = std::fs::remove_dir_all(&dir);
             return c;
         }
+        if c == 101 {
+            // a panic outside any simulated thread is a bug of the harness itself, never a verdict
+            eprintln!("HARNESS-ERROR: the batch process panicked outside a simulation (exit status 101)");
+            let _ = std::fs::remove_dir_all(&dir);
+            return 2;
+        }
     }
     println!("plsim: the batch process was killed (status {:?}); looking for the run that aborts it", code);
     let mut cands: Vec<(u64, std::path::PathBuf)> = vec![];
@@ -518,7 +524,7 @@ pub fn supervise(prop: &str, tier: Tier) -> i32 {
     for (run_seed, path) in &cands {
         let st = std::process::Command::new(&exe).args(["exec-one", prop, path.to_str().unwrap()]).stdout(std::process::Stdio::null()).stderr(std::process::Stdio::null()).status();
         let died = match st {
-            Ok(s) => !matches!(s.code(), Some(0) | Some(1) | Some(2)),
+            Ok(s) => !matches!(s.code(), Some(0) | Some(1) | Some(2) | Some(101)),
             Err(_) => false,
         };
         if died {
